@@ -358,6 +358,42 @@ func permStage(t *testing.T, run *ev.Run, stage string) {
 	}
 	run.Obs("perm_contracts_deployed", int64(len(deps)))
 
+	// --- membership must be proven: a manifest listing a group with a signature
+	// made for ANOTHER contract (copied from a real member's manifest) is refused
+	// wherever the forged entry stands among correctly signed ones
+	{
+		pname := "pretender"
+		ph := state.CreateContractHash(sender, calleeNEF.Checksum, pname)
+		good := func(k *keys.PrivateKey) map[string]any {
+			return map[string]any{"pubkey": gk(k), "signature": base64.StdEncoding.EncodeToString(k.Sign(ph.BytesBE()))}
+		}
+		forged := map[string]any{"pubkey": gk(g[0]), "signature": base64.StdEncoding.EncodeToString(g[0].Sign(callees[1].Hash.BytesBE()))}
+		nb, _ := calleeNEF.Bytes()
+		for name, gs := range map[string][]map[string]any{
+			"forged-first":  {forged, good(g[2])},
+			"forged-middle": {good(g[1]), forged, good(g[2])},
+			"forged-last":   {good(g[2]), forged},
+			"forged-only":   {forged},
+		} {
+			id := fmt.Sprintf("perm/%s/deploy-with-forged-group-membership/%s", stage, name)
+			if !run.Want(id) {
+				continue
+			}
+			script, err := smartcontract.CreateCallScript(mgmt, "deploy", nb, manifestJSON(pname, gs, cm, nil), nil)
+			if err != nil {
+				t.Fatal(err)
+			}
+			o, err := v.run(&invocation{Script: script, EntryFlags: callflag.All, Signers: []transaction.Signer{{Account: sender, Scopes: transaction.Global}}})
+			run.Case(id, true)
+			run.Obs("deployments_with_forged_group_membership_offered", 1)
+			if err != nil {
+				violation(stage, "panic-escaped-vm:deploy-with-forged-group", id, err.Error(), nil)
+			} else if o.Halted {
+				violation(stage, "deploy-accepted:group-signature-made-for-another-contract:"+name, id, "ContractManagement.deploy accepted a manifest whose group entry carries a signature of another contract's hash", map[string]any{"groups": gs})
+			}
+		}
+	}
+
 	// --- the matrix, as test invocations -------------------------------------
 	type cell struct {
 		caller *callerSpec // nil: called from the entry script
